@@ -405,7 +405,13 @@ C08(g, ev, g2) ==
      Cl("C08_b", ante /\ StandCh(g, k) > 0 /\ ev.res = "SC",
                  ev.rc = g.chans[StandCh(g, k)].cur),
      Cl("C08_e", ante /\ ev.res = "SC",
-                 PlacedOnCur(g, ev) /\ Ready(g, PlacedCh(g, ev))) }
+                 PlacedOnCur(g, ev) /\ Ready(g, PlacedCh(g, ev))),
+     \* "from the moment the home channel is READY again every call for the key goes back to the home channel":
+     \* whatever stand-in was used meanwhile (and whatever happened to the key's binding since) is forgotten
+     Cl("C08_h", KeyedBound(g, ev) /\ g.cfg.fb /\ Ready(g, h) /\ ev.res = "SC",
+                 ev.rc = g.chans[h].cur),
+     Cl("C08_h2", KeyedBound(g, ev) /\ g.cfg.fb /\ Ready(g, h) /\ ev.lat,
+                 ev.res = "SC" /\ ev.rc = g.chans[h].cur) }
 
 \* round-robin: neighbours in start order over an unchanged channel list get cyclically consecutive channels
 RRNext(h, n) == (h % n) + 1
@@ -462,7 +468,7 @@ Clauses(g, ev, g2) ==
 
 ClauseIds == {"C01_a", "C01_b", "C01_d", "C02_a", "C02_b", "C02_d", "C03_a", "C03_b", "C03_c", "C03_d", "C03_e", "C03_s", "C02_s", "C04_s",
               "C04_a", "C04_b", "C04_c", "C04_e", "C04_f", "C05_a", "C05_b", "C06_a", "C06_b", "C06_d",
-              "C07_a", "C07_b", "C07_c", "C07_e", "C08_a", "C08_b", "C08_e",
+              "C07_a", "C07_b", "C07_c", "C07_e", "C08_a", "C08_b", "C08_e", "C08_h", "C08_h2",
               "C09_a", "C09_a2", "C09_b", "C09_c", "C09_e", "C17_e", "C17_b", "C17_c", "C17_m", "C20_a", "C20_a2", "C20_b", "C20_c", "C20_d"}
 
 \* descriptors used to match violations against the known-findings file
